@@ -28,6 +28,7 @@ JudgePairs(e) ==
         ELSE IF ~AllMaximalOpenOf(c, rep) THEN "not_a_maximal_open_interval"
         ELSE IF ~NoDuplicateOf(rep) THEN "opening_listed_twice"
         ELSE IF ~NoneMissingOf(c, rep) THEN "opening_missing_inside_covered_span"
+        ELSE IF ~CoversPulsesOf(c, rep, e.np) THEN "covered_span_shorter_than_the_pulse_periods"
         ELSE IF Len(e.durs) > 0 /\ Len(e.durs) # Len(rep) THEN "duration_count"
         ELSE IF Len(e.durs) > 0 /\ ~DurationIsWidthOf(c, rep, e.durs) THEN "duration_is_not_slit_width"
         ELSE "ok"
